@@ -110,6 +110,26 @@ def obs1(rep, prog):
                     rep.violation("OBS-1", b.key, construct,
                                   "observable field %s is filled from `%s`, not from the same-named live field" % (construct, src),
                                   where=where)
+    # every value a snapshot function returns is such a field-wise construction (not e.g. Default::default())
+    for b in prog.bodies.values():
+        if b.unit.name != "statime-lib" or b.is_test() or b.is_closure or "serde" in b.key or "_::" in b.key:
+            continue
+        if (b.trait or "") in ("core::clone::Clone", "core::default::Default", "core::fmt::Debug") or (b.trait or "").startswith("serde"):
+            continue
+        rt = b.local_ty(0)
+        if rt.get("k") != "adt" or OBS_ADTS.get(rt.get("name")) != rt.get("path"):
+            continue
+        pv = df.Prov(b)
+        d = df.defs(b)
+        for (bi, si, dd) in d.whole.get(0, []):
+            if dd[0] != "call":
+                continue
+            cal = mir.callee_of(dd[1])
+            if cal is not None and (cal.get("trait") == "core::default::Default" or cal["name"] == "default"):
+                rep.violation("OBS-1", b.key, "%s result" % rt["name"],
+                              "%s returns %s::default() on some path instead of copying the live data set: the exposed "
+                              "values (e.g. stepsRemoved) no longer equal the instance's" % (b.name, rt["name"]),
+                              where=fc.where(b, dd[1]["sp"][1]))
     # OBS-1b: variant mapping in port_ds
     try:
         pd = prog.one(name="port_ds", self_name="Port", crate="statime-lib")
